@@ -125,6 +125,41 @@ def cases(tier, rng):
     out.append("z%d sock DEALER / attach a ROUTER id=41 / attach b ROUTER id=42 / feed a 0009aabb / eof a / recv / attach c ROUTER id=41 / "
                "send 31 / wire b / wire c / send 32 / wire b / wire c / send 33 / wire b / wire c / send 34 / wire b / wire c / send 35 / wire b / wire c / send 36 / wire b / wire c" % k)
     k += 1
+    # a peer whose connection FAILS ON A SEND leaves the rotation at once; when it re-joins under its old identity the
+    # rotation over the two peers must be exact again (this is not the listed finding: there the loss is noticed by recv
+    # and a stale entry is known to stay queued)
+    for t in ("DEALER", "PUSH"):
+        for kind in ("BrokenPipe", "ConnectionReset"):
+            for ida, idb in ((b"A", b"B"), (b"x" * 255, b"y")):
+                ops = ["attach a %s id=%s" % (peer(t), W.tok(ida)), "attach b %s id=%s" % (peer(t), W.tok(idb)), "wmode a broken=" + kind,
+                       "send 31", "wire a", "wire b", "send 32", "wire a", "wire b", "attach c %s id=%s" % (peer(t), W.tok(ida))]
+                for i in range(6):
+                    ops += ["send %02x" % (0x41 + i), "wire b", "wire c"]
+                out.append("j%d sock %s / %s" % (k, t, " / ".join(ops)))
+                k += 1
+    # connections that answer each write from a script (partial writes, transient and standing back-pressure with the
+    # caller giving up, write errors, Ok(0)), changed at arbitrary points: compared with Model/RrSend.v
+    for t in ("PUSH", "DEALER"):
+        for _ in range(150 if tier == "quick" else 2500):
+            n = rng.randint(2, 4)
+            names = "abcd"[:n]
+            ops = ["attach %s %s" % (c, peer(t)) for c in names]
+            i = 0
+            for _ in range(rng.randint(4, 16)):
+                r = rng.random()
+                c = rng.choice(names)
+                if r < 0.55:
+                    ops.append("send " + msgtok(rng, i).replace("+r70000.7a", ""))
+                    ops += ["wire " + x for x in names]
+                    i += 1
+                elif r < 0.8:
+                    ops.append("wmode %s %s" % (c, rng.choice(["all", "all", "limit=%d" % rng.choice([1, 3, 100]), "stall", "stall",
+                                                                "broken=BrokenPipe", "broken=ConnectionReset", "zero"])))
+                else:
+                    ops.append("wplan %s %s" % (c, ",".join(rng.choice(["p", "w1", "w3", "w300", "p,p", "z", "e:BrokenPipe", "e:ConnectionReset"])
+                                                            for _ in range(rng.randint(1, 4)))))
+            out.append("r%d sock %s / %s" % (k, t, " / ".join(ops)))
+            k += 1
     # REQ feedall expansion: a reply on every connection that has an outstanding request is awkward to
     # know statically, so every connection gets one queued reply per send and REQ reads only its requestee's
     res = []
@@ -149,17 +184,126 @@ def cases(tier, rng):
 
 
 def compare_filter(line):
-    return "wmode" not in line and "wplan" not in line and not line.startswith("z")
+    return line.startswith("r") or ("wmode" not in line and "wplan" not in line and not line.startswith(("z", "j")))
+
+
+def model_cases(case_lines):
+    out = []
+    for line in case_lines:
+        if not line.startswith("r"):
+            out.append(line)
+            continue
+        parts = [p.split() for p in line.split(" / ")]
+        ops = []
+        for op in parts[1:]:
+            if op[0] == "attach":
+                ops.append("attach " + op[1])
+            elif op[0] == "wmode":
+                m = op[2]
+                a = "a" if m == "all" else "p" if m == "stall" else "z" if m == "zero" else "w" + m[6:] if m.startswith("limit=") else "e:" + m.split("=")[1]
+                ops.append("mode %s %s" % (op[1], a))
+            elif op[0] == "wplan":
+                ops.append("plan %s %s" % (op[1], op[2]))
+            else:
+                ops.append(" ".join(op))
+        out.append("%s rrsend / %s" % (parts[0][0], " / ".join(ops)))
+    return out
 
 
 def norm_impl(o, line):
+    if line.startswith("r"):
+        return " ".join("s=err:ReturnToSender" if t.startswith("s=err:ReturnToSender") else t for t in o.split() if not t.startswith("att:"))
     return S.canon_impl(o, line)
+
+
+def norm_model(o, line):
+    return o if line.startswith("r") else S.canon_impl(o, line)
+
+
+def script_judge(line, po, t):
+    """Oracle for the scripted-connection cases, independent of the model: every send attempt is the turn of the head of
+    the rotation (attach order, each attempt moves the head to the tail, a failed write removes it); bytes appear on that
+    connection only; success = everything owed to that connection is on its wire, whole and in order."""
+    rr, owed = [], {}
+    i = 0
+    while i < len(po):
+        op, tk = po[i]
+        if op[0] == "attach":
+            rr.append(op[1])
+            owed[op[1]] = b""
+        if op[0] != "send":
+            i += 1
+            continue
+        wires, j = {}, i + 1
+        while j < len(po) and po[j][0][0] == "wire":
+            hx = po[j][1].split("=", 1)[1]
+            wires[po[j][0][1]] = bytes.fromhex(hx) if hx != "-" else b""
+            j += 1
+        i = j
+        enc = bytes.fromhex(S.enc(S.frames_of_tok(op[1])).replace("-", ""))
+        if not rr:
+            if not tk.startswith("s=err:ReturnToSender") or any(wires.values()):
+                return "send without a connected peer: %s" % tk[:60]
+            continue
+        head = rr[0]
+        if any(v for c, v in wires.items() if c != head):
+            return "it was %s's turn but bytes were written to %s (result %s)" % (head, [c for c, v in wires.items() if v and c != head], tk[:40])
+        due = owed[head] + enc
+        got = wires.get(head, b"")
+        if tk == "s=ok":
+            if got != due:
+                return "send returned success but the wire of %s does not hold the complete message (and what was owed before it)" % head
+            owed[head] = b""
+            rr = rr[1:] + [head]
+        elif tk == "s=pending":
+            if not due.startswith(got):
+                return "bytes on %s's wire are not a prefix of what is owed to it" % head
+            owed[head] = due[len(got):]
+            rr = rr[1:] + [head]
+        elif tk.startswith("s=err:ReturnToSender"):
+            return "send was refused although %s is connected and it is its turn: %s" % (head, tk[:60])
+        elif tk.startswith("s=err"):
+            if not due.startswith(got):
+                return "bytes on the failed connection %s are not a prefix of what was owed to it" % head
+            rr = rr[1:]
+        else:
+            return "unexpected send result " + tk[:60]
+    return None
 
 
 def judge(line, obs, orc):
     if S.bad_obs(obs):
         return "implementation " + str(obs)[:80]
     t, po = S.pair_ops_obs(line, obs)
+    if line.startswith("r"):
+        return script_judge(line, po, t)
+    if line.startswith("j"):
+        seq, failed, i = [], 0, 0
+        rejoined = False
+        while i < len(po):
+            op, tk = po[i]
+            if op[0] == "attach" and op[1] == "c":
+                rejoined = True
+            if op[0] == "send":
+                wires = {}
+                j = i + 1
+                while j < len(po) and po[j][0][0] == "wire":
+                    wires[po[j][0][1]] = po[j][1].split("=", 1)[1]
+                    j += 1
+                if not rejoined:
+                    failed += tk != "s=ok"
+                else:
+                    got = [c for c, wv in wires.items() if wv != "-"]
+                    if tk != "s=ok" or len(got) != 1:
+                        return "send after the re-join did not reach exactly one peer: %s %s" % (tk[:60], {c: v[:30] for c, v in wires.items()})
+                    seq.append(got[0])
+                i = j
+                continue
+            i += 1
+        if failed and any(x == y for x, y in zip(seq, seq[1:])):
+            return ("after a peer's connection failed on a send and the peer re-joined under its old identity, two consecutive "
+                    "sends reached the same peer: %s" % seq)
+        return None
     attached = []
     hits = []           # connection reached by each successful send, in order
     i = 0
@@ -223,4 +367,3 @@ def classify(line, what):
     return "c10-" + ("rotation" if "consecutive" in what else "delivery")
 
 
-norm_model = norm_impl
